@@ -242,7 +242,9 @@ theorem tri_prepEchoing :
   apply Tri.seq' (Q := CloneQ)
   · apply Tri.seq' (Q := fun s => s.canStartBypass = false ∧ s.ctl (fun p _ h _ _ => p = .done ∧ h = .none))
     · apply Tri.seq' (Q := fun s => s.canStartBypass = false ∧ s.ctl (fun p _ _ _ _ => p = .done))
-      · exact (tri_noBypass (fun p _ _ _ _ => p = .done)).weaken (fun _ h => h) (fun _ h => h)
+      · apply Tri.seq' (Q := fun s => s.canStartBypass = false ∧ s.ctl (fun p _ _ _ _ => p = .done))
+        · exact (tri_noBypass (fun p _ _ _ _ => p = .done)).weaken (fun _ h => h) (fun _ h => h)
+        · exact (Tri.must' _).weaken (fun _ h => h) (fun _ h => h.1)
       · refine (Tri.must' _).weaken (fun _ h => h) (fun s h => ⟨h.1.1, h.1.2, eq_of_beq h.2⟩)
     · apply Tri.atomic
       intro s m _ ⟨hb, hp, hh⟩
@@ -254,14 +256,12 @@ theorem tri_prepEchoing :
         · apply Tri.seq' (Q := CloneQ)
           · apply Tri.cond'
             · apply Tri.seq' (Q := CloneQ)
-              · apply Tri.seq' (Q := CloneQ)
-                · exact (Tri.must' _).weaken (fun _ h => h.1.1) (fun _ h => h.1)
-                · apply Tri.cond'
-                  · apply Tri.atomic
-                    intro s m _ ⟨⟨hp, hh, ho⟩, _⟩
-                    have hp' : s.parsing = .done := hp
-                    exact ⟨m.reviveSending ho, aux_of_done hp', hp', hh, ho⟩
-                  · exact Tri.skip'.weaken (fun _ h => h.1) (fun _ h => h)
+              · apply Tri.cond'
+                · apply Tri.atomic
+                  intro s m _ ⟨⟨⟨⟨hp, hh, ho⟩, _⟩, _⟩, _⟩
+                  have hp' : s.parsing = .done := hp
+                  exact ⟨m.reviveSending ho, aux_of_done hp', hp', hh, ho⟩
+                · exact Tri.skip'.weaken (fun _ h => h.1.1.1) (fun _ h => h)
               · exact tri_planSending _
             · exact Tri.skip'.weaken (fun _ h => h.1.1) (fun _ h => h)
           · exact (Tri.must' _).weaken (fun _ h => h) (fun _ h => h.1)
